@@ -80,7 +80,7 @@ namespace verif
         shadow_t<MAXL>   sh;
         u32              slot_state[NSLOT]; // 0 dead, 1 valid, 2 moved-from
         long             ledger[NSLOT];     // traits level net bytes (leak oracle)
-        u32              faults_left, moves_left;
+        u32              faults_left, moves_left, constructs_left, pad0_;
         u32              bulk_n, bulk_owner, bulk_size, bulk_fam;
         u16              bulk_off[320]; // offsets of the nodes of the bulk group (allocation order)
 
@@ -233,7 +233,8 @@ namespace verif
         OP_DESTROY,
         OP_EXTRA,
         OP_BULK,
-        OP_UNBULK
+        OP_UNBULK,
+        OP_CONSTRUCT
     };
     struct opdesc
     {
@@ -323,6 +324,8 @@ namespace verif
                 v.push_back({OP_ARMFAIL, 0, 0});
             if (cp.slots == 2 && cp.moves)
             {
+                v.push_back({OP_CONSTRUCT, 0, 0});
+                v.push_back({OP_CONSTRUCT, 1, 0});
                 v.push_back({OP_MOVECTOR, 0, 1});
                 v.push_back({OP_MOVECTOR, 1, 0});
                 v.push_back({OP_MOVEASSIGN, 0, 1});
@@ -360,10 +363,13 @@ namespace verif
             g_up()            = &w.h.up;
             w.h.faults_left   = u32(CP().faults);
             w.h.moves_left    = u32(CP().moves);
+            w.h.constructs_left = CP().moves ? 1 : 0;
             T().clear();
             w.h.up.cur_owner = 0;
             P::init_extra(w.x);
-            P::construct(w.objp[0]);
+            int oc = guarded([&] { P::construct(w.objp[0]); });
+            if (oc != OUT_OK)
+                bad_outcome(oc, "construction");
             w.h.slot_state[0] = ST_VALID;
         }
 
@@ -390,6 +396,8 @@ namespace verif
                 return "destroy";
             case OP_EXTRA:
                 return P::extra_kind(d.b);
+            case OP_CONSTRUCT:
+                return "construct";
             case OP_BULK:
                 return "bulk_allocate";
             case OP_UNBULK:
@@ -427,10 +435,12 @@ namespace verif
                 return fmt("destroy(s%d%s)", d.a, w.h.slot_state[d.a] == ST_MOVED ? ",moved-from" : "");
             case OP_EXTRA:
                 return fmt("s%d.%s", d.a, P::extra_name(w.x, d.b).c_str());
+            case OP_CONSTRUCT:
+                return fmt("s%d=new allocator", d.a);
             case OP_BULK:
                 return fmt("s%d.%s x%d", d.a, P::alloc_name(0).c_str(), CP().bulk);
             case OP_UNBULK:
-                return fmt("s%d.release all %u bulk nodes %s", d.a, w.h.bulk_n, d.b ? "in reverse order" : "in allocation order");
+                return fmt("s%d.release all %u bulk nodes %s", d.a, w.h.bulk_n, d.b ? "in descending address order" : "in ascending address order");
             }
             return "?";
         }
@@ -460,6 +470,8 @@ namespace verif
                 return h.slot_state[d.a] != ST_DEAD;
             case OP_EXTRA:
                 return h.slot_state[d.a] == ST_VALID && P::extra_enabled(w.x, h.sh, d.a, d.b);
+            case OP_CONSTRUCT:
+                return h.constructs_left > 0 && h.slot_state[d.a] == ST_DEAD;
             case OP_BULK:
                 return h.slot_state[d.a] == ST_VALID && h.bulk_n == 0;
             case OP_UNBULK:
@@ -501,6 +513,38 @@ namespace verif
             }
         }
 
+        // memory that is not part of an outstanding upstream block must stay untouched (the upstream zeroes a
+        // block when it is returned): a non-zero byte there is a write into memory the allocator gave back
+        static void sweep_unowned()
+        {
+            auto& w  = W();
+            auto& up = w.h.up;
+            // blocks are few: mark owned ranges by walking sorted starts
+            u32 idx[MAXB];
+            u32 n = up.nblk;
+            for (u32 i = 0; i < n; ++i)
+                idx[i] = i;
+            for (u32 i = 1; i < n; ++i)
+                for (u32 k = i; k > 0 && up.blk[idx[k - 1]].off > up.blk[idx[k]].off; --k)
+                    std::swap(idx[k - 1], idx[k]);
+            u32 pos = 0;
+            for (u32 i = 0; i <= n; ++i)
+            {
+                u32 end = i < n ? up.blk[idx[i]].off : u32(up.ARENA);
+                for (u32 b = pos; b < end; ++b)
+                    if (w.arena[b] != 0)
+                    {
+                        T().fail("M-upstream", "write-after-release",
+                                 fmt("byte at arena offset %u is 0x%02X although no outstanding block covers it: the allocator wrote into "
+                                     "memory it had already returned (or never owned)",
+                                     b, w.arena[b]));
+                        return;
+                    }
+                if (i < n)
+                    pos = up.blk[idx[i]].off + up.blk[idx[i]].size;
+            }
+        }
+
         static void bad_outcome(int oc, const char* what)
         {
             if (oc == OUT_REPORTED)
@@ -522,6 +566,29 @@ namespace verif
             case OP_ALLOC:
                 do_alloc(d.a, P::make_req(w.x, d.a, d.b), false);
                 break;
+            case OP_CONSTRUCT:
+            {
+                h.up.cur_owner = u32(d.a);
+                --h.constructs_left;
+                volatile int ex = EX_NONE;
+                int oc = call_classified([&] { P::construct(w.objp[d.a]); }, ex);
+                if (oc != OUT_OK)
+                    bad_outcome(oc, "construction");
+                else if (ex != EX_NONE)
+                {
+                    // constructor failed (upstream refused): nothing may stay outstanding
+                    if (h.up.outstanding_of(u32(d.a)))
+                        t.fail("M-upstream", "block-not-returned", "a failed constructor left an upstream block outstanding");
+                    std::memset(w.objp[d.a], 0, OBJSZ);
+                    t.outcome = exc_name(ex);
+                }
+                else
+                {
+                    h.slot_state[d.a] = ST_VALID;
+                    t.outcome         = "ok";
+                }
+                break;
+            }
             case OP_BULK:
                 do_bulk(d.a);
                 break;
@@ -558,6 +625,8 @@ namespace verif
             }
             if (t.violations.empty())
                 sweep_content();
+            if (t.violations.empty())
+                sweep_unowned();
             if (t.violations.empty())
                 for (int s = 0; s < CP().slots; ++s)
                 {
@@ -669,7 +738,7 @@ namespace verif
                        fmt("returned range [%u,%u) overlaps a live node of the bulk group", off, off + bytes));
             if (r.align && (reinterpret_cast<std::uintptr_t>(p) % r.align) != 0)
                 t.fail("M-align", "misaligned", fmt("returned pointer %p is not aligned to %u", p, r.align));
-            if (cfg_fill)
+            if (cfg_fill && P::fills_new())
                 for (u32 i = 0; i < bytes; ++i)
                     if (c[i] != 0xCD)
                     {
@@ -692,7 +761,14 @@ namespace verif
             fill_pattern(w.arena, l);
             if (bulk)
             {
-                h.bulk_off[h.bulk_n++] = u16(off);
+                // keep the table sorted by address (the model does not care about allocation order)
+                u32 pos = h.bulk_n++;
+                while (pos > 0 && h.bulk_off[pos - 1] > u16(off))
+                {
+                    h.bulk_off[pos] = h.bulk_off[pos - 1];
+                    --pos;
+                }
+                h.bulk_off[pos] = u16(off);
                 h.bulk_size            = bytes;
                 h.bulk_owner           = u32(s);
                 h.bulk_fam             = r.fam;
@@ -1063,6 +1139,8 @@ namespace verif
         lim.max_states = std::size_t(a.n("max_states", 2000000));
         lim.deadline_s = now_s() + double(a.n("time_s", 600));
         lim.max_depth  = int(a.n("max_depth", 1 << 20));
+        lim.snapshots  = a.n("snap", 0) != 0;
+        lim.verify_every = std::size_t(a.n("verify_every", 16));
         explorer<S> e;
         auto        r = e.run(name, lim);
         std::string js = r.to_json();
